@@ -24,8 +24,9 @@ Line-protocol front end of the C05 model (requests after the leading `C05` field
                                       | S <k> <perm> (<item> <o|b> <hex>)*k
   headerValues <perm> <name hex> <khex:vhex,…>         → the values filed under the canonical header name (hex, comma-separated)
   walkOps                                              → the operation names of the failing-element stream, comma-separated
-  findMount <impl|last> <perm> <path hex> <keyhex:targethex,…> → some <position of the serving mount in the request> <relative path hex> | none,
-                                                          then targetsAreKeys; the mounts map visited in order <perm>; `last` = the forbidden variant
+  findMount <impl|last|prefix> <perm> <path hex> <keyhex:targethex,…> → some <position of the serving mount in the request> <relative path hex> | none,
+                                                          then targetsAreKeys; the mounts map visited in order <perm>; `last` = the forbidden variant,
+                                                          `prefix` = the loop before its repair (preFixFindMount, finding C05-findmount-target-length, fixed)
   hashKey <item>                                       → <type> <IntValue> <StrValue hex> <float position> <is NaN>: HashKey() of the value (HV.key)
   listing <perm> <item,…>                              → positions (in the request) of the members in the order the set lists them (setListing on values)
   item := i:<int> | s:<hex> | t | f | n | d:<position of the float among the non-NaN floats> | D (NaN) | b:<byte> | y:<hex bytes>
@@ -330,7 +331,8 @@ def handle : List String → String
     match fromHex path, parseMounts ms with
     | some p, some l =>
       let vis := applyPerm (parsePerm perm) l
-      let r := if mode = "last" then findMountLast p vis else findMount p vis
+      let r := if mode = "last" then findMountLast p vis
+        else if mode = "prefix" then preFixFindMount p vis else findMount p vis
       (match r with
         | some (id, rel) => s!"some {id} {toHexField rel}"
         | none => "none") ++ "\t" ++ toString (targetsAreKeys l)
